@@ -2294,3 +2294,35 @@ Proof.
 Qed.
 
 End Eor.
+
+(* ------------------------------------------------------------ PendingTx: coalescing and flush order *)
+(* What one flush does to route k, in terms of what PendingTx holds for it: the last event
+   queued for the key wins (an announcement cancels a pending withdrawal and vice versa);
+   at the flush the buffered initial dump is applied first, then the withdrawals, then the
+   announcements. *)
+Theorem C01_pending_last_event_wins :
+  forall (E : Type) (p : ptx E) (k' : key) (e : E) (k : key),
+    pview E (ptx_reach E k' (fst k') e p) k = (if key_eqb k k' then Some (Some e) else pview E p k) /\
+    pview E (ptx_unreach E k' (fst k') p) k = (if key_eqb k k' then Some None else pview E p k) /\
+    (coherent E p -> coherent E (ptx_reach E k' (fst k') e p) /\ coherent E (ptx_unreach E k' (fst k') p)).
+Proof.
+  intros E p k' e k. split; [apply pview_reach|]. split; [apply pview_unreach|].
+  intros Hc. split; [apply coherent_reach | apply coherent_unreach]; auto.
+Qed.
+
+Theorem C01_flush_order :
+  forall (E : Type) (n : nbr E) (k : key),
+    coherent E (n_ptx n) ->
+    kfind k (flush_mirror E n) =
+    match pview E (n_ptx n) k with
+    | Some (Some e) => Some e                 (* a pending announcement: the route, as announced *)
+    | Some None => None                       (* a pending withdrawal: gone, also if the buffered dump holds it *)
+    | None => match kfind k (rev (n_buf n)) with
+              | Some e => Some e              (* in the buffered initial dump *)
+              | None => kfind k (n_mirror n)  (* untouched *)
+              end
+    end.
+Proof.
+  intros E n k Hc. rewrite flush_lookup by auto.
+  destruct (pview E (n_ptx n) k) as [[e|]|]; auto. apply mirror_reach_lookup.
+Qed.
